@@ -46,7 +46,20 @@ class ParseStep:
                         ks.add(o[1])
             if i.op == 'switch':
                 pass
-        self.breakpoints = sorted({0, 0xFFFF} | {x for k in ks for x in (k - 1, k, k + 1) if 0 <= x <= 0xFFFF})
+        # a range test written as `word - LO > N` compares a shifted word: its class boundaries are LO and LO + N
+        offs = {0}
+        for i in self.f.insns():
+            if i.op in ('add', 'sub'):
+                for o in i.ops:
+                    if o[0] == 'int' and -0x10000 <= o[1] <= 0x10000 and o[1] not in (0, 1, -1):
+                        offs.add(o[1] & 0xFFFF)
+                        offs.add((-o[1]) & 0xFFFF)
+        pts = {0, 0xFFFF}
+        for k in ks | {0}:
+            for off in offs:
+                for x in (k - 1, k, k + 1):
+                    pts.add((x + off) & 0xFFFF)
+        self.breakpoints = sorted(pts)
 
     def step(self, state, word, stream_mode=0, stored=0, computed=0, bs100k=9, live=48, eof=0, tail=None,
              have_data=True, fill=0x5A5A5A5A5A5A):
